@@ -203,13 +203,18 @@ struct Server {
         o.ready_at = sim::now_ns() + delay;
         o.never = beh == "never";
         o.close_after = beh == "close-after";
+        if (beh == "raw") {
+            // hostile server: the response bytes come from the plan
+            o.data = q.str("raw");
+            if (o.data.empty()) o.never = true;
+        }
         if (beh == "chunked") {
             std::vector<std::string> chunks;
             size_t piece = static_cast<size_t>(std::max<i64>(1, q.num("piece", 10)));
             for (size_t off = 0; off < body.size(); off += piece) chunks.push_back(body.substr(off, piece));
             o.data = "HTTP/1.1 200 OK\r\nTransfer-Encoding: chunked\r\n\r\n" + actors::chunked(chunks);
         }
-        if (beh == "dribble" || (beh == "chunked" && q.num("gap_us", 0) % 2)) {
+        if (beh == "dribble" || (beh == "chunked" && q.num("gap_us", 0) % 2) || (beh == "raw" && q.num("piece", 0) > 0)) {
             o.piece = static_cast<size_t>(std::max<i64>(1, q.num("piece", 10)));
             o.gap = std::max<i64>(1, q.num("gap_us", 100)) * 1000;
         }
@@ -329,7 +334,25 @@ void run(const Json& plan)
         } else
             r.violation(sig, detail);
     };
+    const bool hostile_mode = plan.flag("hostile_server");
+    // a connection that ever carried a hostile response has no defined framing afterwards
+    std::map<int, i64> hostile_on_conn;
+    if (hostile_mode)
+        for (auto& rs : reqs)
+            if (rs.behaviour == "raw" && rs.srv_conn >= 0 && (!hostile_on_conn.count(rs.srv_conn) || rs.srv_received_at < hostile_on_conn[rs.srv_conn])) hostile_on_conn[rs.srv_conn] = rs.srv_received_at;
     for (auto& rs : reqs) {
+        if (hostile_mode) {
+            std::string who = "request tag " + std::to_string(rs.tag) + " (" + rs.behaviour + ")";
+            r.probe(rs.behaviour == "raw" ? (rs.fulfilled ? "hostile-response-accepted" : rs.rejected ? "hostile-response-rejected" : "hostile-response-unsettled") : "well-formed-exchange");
+            if (rs.fulfilled + rs.rejected > 1) r.violation("C03.client:settled-more-than-once", who + " was settled " + std::to_string(rs.fulfilled + rs.rejected) + " times");
+            bool clean_conn = rs.srv_conn >= 0 && (!hostile_on_conn.count(rs.srv_conn) || hostile_on_conn[rs.srv_conn] > rs.srv_received_at) && !after_timeout(rs);
+            if (rs.behaviour != "raw" && clean_conn && rs.srv_answered_at >= 0) {
+                std::string want = "tag=" + std::to_string(rs.tag) + ";";
+                if (!rs.fulfilled) r.violation("C03.client:well-formed-exchange-not-fulfilled", who + " was answered correctly on a connection without hostile history but its promise was " + (rs.rejected ? "rejected (" + rs.error + ")" : "never settled"));
+                else if (rs.body.compare(0, want.size(), want) != 0) r.violation("C03.client:well-formed-exchange-wrong-body", who + " was fulfilled with another body");
+            }
+            continue;
+        }
         std::string who = "request tag " + std::to_string(rs.tag) + " (" + rs.behaviour + (rs.timeout_ms ? ", time-out " + std::to_string(rs.timeout_ms) + " ms" : "") + ")";
         r.probe("behaviour-" + rs.behaviour);
         if (rs.fulfilled + rs.rejected > 1)
@@ -372,6 +395,82 @@ void run(const Json& plan)
     simk::ActorSock::unlisten(srv.port);
     for (auto& c : srv.conns) srv.gone(c);
 }
+
+// ---- hostile server (C03, response side) -----------------------------------------------------------------
+// The scripted server answers some requests with mutated or hostile responses in drawn dribbling; the real client
+// must neither crash nor hang nor corrupt memory, must settle each such request at most once, and must keep serving
+// the well-formed exchanges that do not share a connection history with a hostile one.
+const char* kHostileResponseHeaders[] = {
+    "Content-Length: 99999999999999999999", "Content-Length: 2000000000", "Content-Length: -1", "Content-Length: ", "Content-Length: 12abc",
+    "Transfer-Encoding: chunked", "Transfer-Encoding: gzip", "Set-Cookie: ====;;;;", "Set-Cookie: a", "Set-Cookie: =", "Set-Cookie: a=b; Max-Age=999999999999999999999",
+    "Set-Cookie: a=b; Expires=garbage", "Set-Cookie: a=b; Path", "Set-Cookie: \x01=\xff; ;", "Content-Type: ", "Content-Type: a", "Content-Type: text/plain; charset",
+    "Cache-Control: max-age=", "Cache-Control: max-age=999999999999999999999", "Cache-Control: ,,,,", "Location: ", "Server: \r", "Date: garbage",
+    "Connection: ", "Allow: GET,,,", "Access-Control-Allow-Origin: ", ": value", "NoColonHere", "X: ",
+};
+
+std::string hostile_response(sim::Rng& rng, u64 tag)
+{
+    int k = static_cast<int>(rng.below(10));
+    std::string body = "tag=" + std::to_string(tag) + ";";
+    if (k < 4) {
+        msggen::Msg m = msggen::gen_response(rng, 1200);
+        int n = static_cast<int>(rng.range(1, 4));
+        for (int i = 0; i < n; ++i) msggen::mutate(rng, m);
+        return m.bytes;
+    }
+    if (k < 8) {
+        static const char* lines[] = { "HTTP/1.1 200 OK", "HTTP/1.1  200 OK", "HTTP/1.1 ", "HTTP/1.1 99999999999999999999 X", "HTTP/1.1 abc OK", "HTTP/1.0 200 OK", "HTTP/2.0 200 OK", "HTTP/1.1 200", "HTTP/1.1\t200 OK" };
+        std::string s = std::string(lines[rng.below(sizeof lines / sizeof lines[0])]) + "\r\n";
+        int n = static_cast<int>(rng.range(0, 4));
+        for (int i = 0; i < n; ++i) s += std::string(kHostileResponseHeaders[rng.below(sizeof kHostileResponseHeaders / sizeof kHostileResponseHeaders[0])]) + "\r\n";
+        int b = static_cast<int>(rng.below(4));
+        if (b == 0) s += "Content-Length: " + std::to_string(body.size()) + "\r\n\r\n" + body;
+        else if (b == 1) s += "\r\n" + msggen::chunked_body(rng, 300, nullptr);
+        else if (b == 2) s += "Transfer-Encoding: chunked\r\n\r\n" + std::string(rng.chance(0.5) ? "ffffffffffffffff\r\n" : "\r\n") + body + "\r\n0\r\n\r\n";
+        else s += "\r\n";
+        return s;
+    }
+    std::string s;
+    size_t n = static_cast<size_t>(rng.below(400));
+    for (size_t i = 0; i < n; ++i) {
+        int c = static_cast<int>(rng.below(20));
+        s.push_back(c == 0 ? '\r' : c == 1 ? '\n' : c == 2 ? ' ' : c == 3 ? ':' : c == 4 ? '\0' : static_cast<char>(rng.below(256)));
+    }
+    return s;
+}
+
+Json gen_hostile(sim::Rng& rng, int tier)
+{
+    Json p = Json::object();
+    p["client_threads"] = static_cast<int>(rng.range(1, 2));
+    p["max_conn"] = static_cast<int>(rng.range(1, 3));
+    p["hostile_server"] = true;
+    int total = static_cast<int>(rng.range(1, tier ? 10 : 6));
+    Json ji = Json::array();
+    ji.push(Json::array());
+    u64 tag = 100000 + rng.below(800000);
+    for (int k = 0; k < total; ++k) {
+        Json q = Json::object();
+        q["tag"] = static_cast<long long>(++tag);
+        bool hostile = rng.chance(0.6);
+        q["behaviour"] = hostile ? "raw" : "immediate";
+        if (hostile) q["raw"] = hostile_response(rng, tag);
+        q["timeout_ms"] = static_cast<long>(300 + rng.below(700));
+        q["server_delay_us"] = 0L;
+        q["piece"] = rng.chance(0.5) ? 0 : static_cast<int>(1 + rng.below(30));
+        q["gap_us"] = static_cast<int>(21 + 2 * rng.below(500)); // odd: dribbled
+        q["issue_delay_us"] = static_cast<int>(rng.below(2000));
+        q["body_len"] = static_cast<int>(rng.below(100));
+        ji.a[0].push(q);
+    }
+    p["issuers"] = ji;
+    p["latency_us"] = static_cast<int>(5 + rng.below(300));
+    gen_sched(rng, p, 4000, false);
+    return p;
+}
+
+Scenario sch { "c15_hostile_server", "C03", "real HTTP client vs a scripted server that answers with hostile / mutated responses", gen_hostile, run };
+Registrar regh(&sch);
 
 Scenario sc { "c15_client", "C15", "real HTTP client (1..2 threads, 1..4 connections) vs scripted server with per-request behaviours", gen, run };
 Registrar reg(&sc);
